@@ -57,11 +57,17 @@ func (pcr *PreConfigRoute) FindRoute(dest string) (protocol string, host string,
 	if item, ok := pcr.items[dest]; ok {
 		return item.protocol, item.host, item.port, nil
 	}
+	// the map is visited in random order: keep the matching entry with the smallest
+	// pattern so that the same host always gets the same answer
+	var matchedItem *PreRouteItem = nil
 	for _, item := range pcr.items {
 		matched, err := regexp.MatchString(pcr.toRegularExp(item.dest), dest)
-		if matched && err == nil {
-			return item.protocol, item.host, item.port, nil
+		if matched && err == nil && (matchedItem == nil || item.dest < matchedItem.dest) {
+			matchedItem = item
 		}
+	}
+	if matchedItem != nil {
+		return matchedItem.protocol, matchedItem.host, matchedItem.port, nil
 	}
 	if item, ok := pcr.items["default"]; ok {
 		return item.protocol, item.host, item.port, nil
